@@ -23,7 +23,8 @@ def population():
 
 
 CLASSES = {"K": RW.K, "Sub": RW.Sub, "E": RW.E, "U": RW.U}
-RESULT = {"meth": 1, "other": 2, "deco": 3, "deco2": 7, "tree": 5, "glob": 6}
+RESULT = {"meth": 1, "other": 2, "deco": 3, "deco2": 7, "tree": 5, "glob": 6, "store": 9}
+PROPS = {"prop": 4, "prop2": 8}
 
 
 def run_case(c):
@@ -33,17 +34,17 @@ def run_case(c):
     env["holder"] = RW.Holder(pop.get(c["target"])) if c["target"] in pop else None
     env["meth"] = RW.meth
     env["poll"] = RW.poll
-    nested = c["path"] in ("nested", "nested_ctx") and c["method"] != "prop"
+    nested = c["path"] in ("nested", "nested_ctx") and c["method"] not in PROPS
     via = c.get("via") or [True] * len(c["calls"])
     m = c["method"]
     recvname = "this" if m == "other" else "self"
-    if c["path"] == "selfcap" and c["target"] in pop and m != "prop":
+    if c["path"] == "selfcap" and c["target"] in pop and m not in PROPS:
         text = f"{c['target']}.{m}({recvname}) > v"              # the receiver parameter named explicitly
-    elif c["path"] == "selfalias" and c["target"] in pop and m != "prop":
+    elif c["path"] == "selfalias" and c["target"] in pop and m not in PROPS:
         text = f"{c['target']}.{m}({recvname} as who, x) > v"
-    elif c["path"] == "selffocus" and c["target"] in pop and m != "prop":
+    elif c["path"] == "selffocus" and c["target"] in pop and m not in PROPS:
         text = f"{c['target']}.{m} > {recvname} as who"          # the receiver parameter itself is the focus
-    elif c["path"] == "enter" and m != "prop":
+    elif c["path"] == "enter" and m not in PROPS:
         text = f"{c['target']}.{m} > #enter"                     # the entry event of the method, for one receiver
     elif c["path"] == "external":
         text = f"{c['target']}.glob > BASE"                      # a global the method reads, for one receiver
@@ -51,9 +52,9 @@ def run_case(c):
     elif c["path"] == "nested2" and c["target"] in pop and c.get("target2") in pop:
         text = f"{c['target']}.tree > {c['target2']}.tree > v"   # two object-bound levels
         m = "tree"
-    elif c["path"] == "nested" and m != "prop":
+    elif c["path"] == "nested" and m not in PROPS:
         text = f"poll > {c['target']}.{m} > v"                   # the method is an inner step of a call path
-    elif c["path"] == "nested_ctx" and m != "prop":
+    elif c["path"] == "nested_ctx" and m not in PROPS:
         text = f"poll(tick) > {c['target']}.{m}(x) > v"
     elif c["path"] == "dotted" and c["target"] in pop:
         text = f"holder.obj.{m} > v"
@@ -80,9 +81,9 @@ def run_case(c):
             for i, name in enumerate(c["calls"]):
                 n0 = len(events)
                 o = pop[name]
-                if m == "prop":
-                    r = o.prop
-                    rets.append(r == o.key + 4)
+                if m in PROPS:
+                    r = getattr(o, m)
+                    rets.append(r == o.key + PROPS[m])
                 elif nested and via[i]:
                     r = RW.poll(o, 10 + i, m)
                     rets.append(r == 10 + i + RESULT[m])
